@@ -17,8 +17,11 @@ import (
 	"os"
 	"path/filepath"
 	"sort"
+	"runtime"
 	"strconv"
 	"strings"
+	"sync"
+	"sync/atomic"
 
 	task "github.com/go-task/task/v3"
 	"github.com/go-task/task/v3/errors"
@@ -85,7 +88,7 @@ type ldFile struct {
 
 type ldCase struct {
 	Op    string   `json:"op"` // "tree" | "refs"
-	Probe bool     `json:"probe,omitempty"`
+	Probe int      `json:"probe,omitempty"` // k > 0: compile every k-th merged task on the first load
 	Root  int      `json:"root"`
 	Files []ldFile `json:"files"`
 	Loads int      `json:"loads"`
@@ -301,10 +304,11 @@ func parseTaskfile(src string) (*ast.Taskfile, error) {
 	return &tf, nil
 }
 
-func initAttrTable() {
-	if attrTable[0] != nil {
-		return
-	}
+var attrOnce sync.Once
+
+func initAttrTable() { attrOnce.Do(buildAttrTable) }
+
+func buildAttrTable() {
 	for i := 0; i < nAttrs; i++ {
 		for k := 0; k <= attrVariants[i]; k++ {
 			at := make([]int, nAttrs)
@@ -423,9 +427,10 @@ func depNames(deps []*ast.Dep) []string {
 }
 
 type ldLoaded struct {
-	dump string // canonical dump of the merged table (or "err …")
-	refs string // projection used by the root-reference monitor
-	ok   bool
+	dump  string // canonical dump of the merged table (or "err …")
+	refs  string // projection used by the root-reference monitor
+	probe string // " PR <m> (<idx> <dir> <n> (<key> <val|->)*)*" when a probe was asked for
+	ok    bool
 }
 
 func classifyErr(err error) string {
@@ -459,7 +464,7 @@ func classifyErr(err error) string {
 }
 
 // loadOnce loads the tree at root once through the public API and dumps it.
-func loadOnce(root string, ids map[string]int, probe bool, keys []int) (res ldLoaded) {
+func loadOnce(root string, ids map[string]int, probe int, keys []int) (res ldLoaded) {
 	defer func() {
 		if r := recover(); r != nil {
 			res = ldLoaded{dump: "panic", refs: "panic"}
@@ -477,7 +482,8 @@ func loadOnce(root string, ids map[string]int, probe bool, keys []int) (res ldLo
 		return ldLoaded{dump: s, refs: s}
 	}
 	tf := e.Taskfile
-	var sb, rb strings.Builder
+	var sb, rb, pb strings.Builder
+	idx, probed := 0, 0
 	fmt.Fprintf(&sb, "ok %d", tf.Tasks.Len())
 	fmt.Fprintf(&rb, "ok %d", tf.Tasks.Len())
 	locID := func(t *ast.Task) int {
@@ -504,9 +510,11 @@ func loadOnce(root string, ids map[string]int, probe bool, keys []int) (res ldLo
 			fmt.Fprintf(&sb, " %d", a)
 		}
 		fmt.Fprintf(&sb, " TV %s IV %s XV %s", varsDump(root, t.Vars), varsDump(root, t.IncludeVars), varsDump(root, t.IncludedTaskfileVars))
-		if probe {
-			sb.WriteString(" P " + probeTask(e, root, name, keys))
+		if probe > 0 && idx%probe == 0 {
+			fmt.Fprintf(&pb, " %d %s", idx, probeTask(e, root, name, keys))
+			probed++
 		}
+		idx++
 		refs := depNames(t.Deps)
 		for _, c := range t.Cmds {
 			if c != nil && c.Task != "" {
@@ -516,7 +524,11 @@ func loadOnce(root string, ids map[string]int, probe bool, keys []int) (res ldLo
 		fmt.Fprintf(&rb, " T %s L %d R %s", key, locID(t), namesDump(refs))
 	}
 	fmt.Fprintf(&sb, " V %s E %s", varsDump(root, tf.Vars), varsDump(root, tf.Env))
-	return ldLoaded{dump: sb.String(), refs: rb.String(), ok: true}
+	pr := ""
+	if probe > 0 {
+		pr = fmt.Sprintf(" PR %d%s", probed, pb.String())
+	}
+	return ldLoaded{dump: sb.String(), refs: rb.String(), probe: pr, ok: true}
 }
 
 // probeTask compiles the merged task as a call by its full name would and reports the
@@ -576,7 +588,7 @@ func caseLine(d *ldCase) string {
 	if d.Op == "refs" {
 		fmt.Fprintf(&b, "load.refs %d %d", d.Root, len(d.Files))
 	} else {
-		fmt.Fprintf(&b, "load.tree %s %d %d", b2s(d.Probe), d.Root, len(d.Files))
+		fmt.Fprintf(&b, "load.tree %d %d %d", d.Probe, d.Root, len(d.Files))
 	}
 	for i := range d.Files {
 		f := &d.Files[i]
@@ -672,7 +684,7 @@ func normFile(f ldFile) string {
 
 // ---------------------------------------------------------------- evaluation of one case
 
-var ldCounter int
+var ldCounter int64
 
 func evalLoad(d ldCase) (string, string) {
 	initAttrTable()
@@ -680,8 +692,7 @@ func evalLoad(d ldCase) (string, string) {
 	if scratch == "" {
 		scratch = os.TempDir()
 	}
-	ldCounter++
-	root := filepath.Join(scratch, "load", fmt.Sprintf("c%d-%d", os.Getpid(), ldCounter))
+	root := filepath.Join(scratch, "load", fmt.Sprintf("c%d-%d", os.Getpid(), atomic.AddInt64(&ldCounter, 1)))
 	os.RemoveAll(root)
 	if err := os.MkdirAll(root, 0o755); err != nil {
 		panic(err)
@@ -767,8 +778,16 @@ func evalLoad(d ldCase) (string, string) {
 	}
 	variants := map[string]int{}
 	var order []string
+	probe := ""
 	for i := 0; i < loads; i++ {
-		r := loadOnce(root, ids, d.Probe && d.Op != "refs", keys)
+		pr := 0
+		if i == 0 && d.Op != "refs" {
+			pr = d.Probe
+		}
+		r := loadOnce(root, ids, pr, keys)
+		if i == 0 {
+			probe = r.probe
+		}
 		s := r.dump
 		if d.Op == "refs" {
 			s = r.refs
@@ -779,7 +798,7 @@ func evalLoad(d ldCase) (string, string) {
 		variants[s]++
 	}
 	if len(order) == 1 {
-		return cl, order[0]
+		return cl, order[0] + probe
 	}
 	// C09: repeated loads of the same tree differ
 	sort.Strings(order)
@@ -1157,32 +1176,67 @@ func runLoad(c *Ctx) {
 	n := c.Pick(260, 2200)
 	loads := c.Pick(20, 100)
 	maxDepth := c.Pick(3, 4)
+	// generate first (all randomness from c.Rng, sequentially), evaluate on a worker
+	// pool (independent directories; more scheduling variety for the reader's goroutines),
+	// emit in generation order
+	var cases []ldCase
 	for i := 0; i < n; i++ {
 		d := c.genTree(maxDepth)
 		d.Loads = loads
-		d.Probe = i%3 == 0
-		cl, il := evalLoad(d)
-		kind := strings.SplitN(il, " ", 3)
-		c.Hit("result:" + kind[0])
-		if kind[0] == "err" && len(kind) > 1 {
-			c.Hit("err:" + strings.SplitN(kind[1], ":", 2)[0])
-		}
-		if d.Probe {
+		if i%3 == 0 {
+			d.Probe = 1 + c.Rng.Intn(4)
 			c.Hit("probe")
 		}
 		if key, nt := shapeKey(&d); nt {
 			c.Distinct(key)
 		}
-		c.Emit(cl, il, d)
-		if kind[0] == "ok" && hasColonRef(&d) {
+		cases = append(cases, d)
+		if hasColonRef(&d) {
 			r := d
 			r.Op = "refs"
-			r.Probe = false
+			r.Probe = 0
 			r.Loads = 2
-			cl, il := evalLoad(r)
-			c.Hit("refs-monitor")
-			c.Emit(cl, il, r)
+			cases = append(cases, r)
 		}
 	}
+	type res struct{ cl, il string }
+	out := make([]res, len(cases))
+	workers := runtime.NumCPU()
+	if workers > 8 {
+		workers = 8
+	}
+	var wg sync.WaitGroup
+	next := int64(-1)
+	for w := 0; w < workers; w++ {
+		wg.Add(1)
+		go func() {
+			defer wg.Done()
+			for {
+				i := int(atomic.AddInt64(&next, 1))
+				if i >= len(cases) {
+					return
+				}
+				out[i].cl, out[i].il = evalLoad(cases[i])
+			}
+		}()
+	}
+	wg.Wait()
+	treeOK := false
+	for i, d := range cases {
+		kind := strings.SplitN(out[i].il, " ", 3)
+		if d.Op == "refs" {
+			// the monitor is only meaningful for trees that load
+			if !treeOK {
+				continue
+			}
+			c.Hit("refs-monitor")
+		} else {
+			treeOK = kind[0] == "ok"
+			c.Hit("result:" + kind[0])
+			if kind[0] == "err" && len(kind) > 1 {
+				c.Hit("err:" + strings.SplitN(kind[1], ":", 2)[0])
+			}
+		}
+		c.Emit(out[i].cl, out[i].il, d)
+	}
 }
-
